@@ -166,7 +166,179 @@ def sprinkle(r, ops, p_cancel, p_trunc):
     return out
 
 
+def base_cfg(r, prefix):
+    lossy = r.random() < 0.2
+    return {
+        "net": {
+            "delay_us": r.choice([20, 200, 200, 1000, 10000]),
+            "jitter_us": r.choice([0, 0, 30, 300]),
+            "loss_pm": r.choice([10, 30]) if lossy else 0,
+            "dup_pm": r.choice([0, 0, 20]),
+            "block_pm": r.choice([0, 0, 0, 100]),
+            "block_us": r.choice([5, 50, 700]),
+            "gso": r.choice([1, 1, 4]),
+            "gro": r.choice([1, 1, 4]),
+        },
+        "sched": {
+            "mode": r.choice(["uniform", "uniform", "fifo", "lifo", "pct"]),
+            "poll_cost_us": r.choice([0, 0, 3, 40]),
+            "pct_d": r.choice([1, 3, 6]),
+            "at": r.choice([0, 3, 8, 15, 25, 40, 60, 90]),
+            "prefix": list(prefix) if prefix else [],
+        },
+        "clients": 1, "idle_ms": 0, "keepalive_ms": 0,
+        "stream_window": r.choice([300, 1000, 4000, 65536]),
+        "send_window": 0,
+        "max_uni": 4, "max_bi": 4,
+        "sup_hold": r.random() < 0.7,
+        "max_polls": 60000, "max_time_ms": 900000,
+    }
+
+
+def gen_limit_chain(r, idx, prefix=None):
+    """Tiny stream-count limits: a later open depends on every earlier stream having been retired, i.e. on the
+    implicit finish / reset / stop performed when handles are dropped (stopped or not, send and recv halves)."""
+    cfg = base_cfg(r, prefix)
+    cfg["max_uni"] = r.choice([1, 1, 2])
+    cfg["max_bi"] = r.choice([1, 1, 2])
+    tasks = [{"ep": 0, "root": True, "ops": []}, {"ep": 1, "root": True, "ops": []}]
+
+    def opener(bidi, k):
+        ops = []
+        if r.random() < 0.3:
+            ops.append({"op": "sleep", "us": r.choice([100, 20000, 1000000])})
+        for _ in range(k):
+            ops.append({"op": "open_bi" if bidi else "open_uni"})
+            n = r.choice([0, 1, 1, 300, 3000])
+            if n:
+                ops.append({"op": r.choice(["write", "write_all"]), "n": n})
+            mid = r.random()
+            if mid < 0.35:
+                # learn the peer's verdict first: a later drop then meets a stopped stream
+                ops.append({"op": "stopped", "cancel": [{"us": r.choice([20000, 500000, 3000000])}]})
+            elif mid < 0.55:
+                ops.append({"op": "sleep", "us": r.choice([1000, 100000, 2000000])})
+            end = r.random()
+            if end < 0.3:
+                ops.append({"op": "finish"})
+            elif end < 0.45:
+                ops.append({"op": "reset", "code": r.choice([1, 5])})
+            # else: nothing; the drop at the next open (or at the end of the task) must finish / reset it
+            if bidi:
+                rd = r.random()
+                if rd < 0.4:
+                    ops.append({"op": "read_all", "kind": r.choice(["read", "read_chunk"]), "n": 2000, "max_rounds": 20})
+                elif rd < 0.6:
+                    ops.append({"op": "stop", "code": 4})
+            if r.random() < 0.3:
+                ops.append({"op": r.choice(["drop_send", "drop_recv"])})
+        return ops
+
+    def acceptor(bidi, k):
+        ops = []
+        if r.random() < 0.3:
+            ops.append({"op": "sleep", "us": r.choice([100, 50000, 1500000])})
+        for _ in range(k):
+            ops.append({"op": "accept_bi" if bidi else "accept_uni"})
+            b = r.random()
+            if b < 0.3:
+                ops.append({"op": "read_all", "kind": r.choice(["read", "read_chunk", "read_chunks"]), "n": 1500, "max_rounds": 30})
+            elif b < 0.4:
+                ops.append({"op": "read_to_end", "n": 20000})
+            elif b < 0.6:
+                ops.append({"op": "read", "n": r.choice([1, 100])})
+                ops.append({"op": "stop", "code": r.choice([2, 3])})
+            elif b < 0.8:
+                ops.append({"op": "stop", "code": r.choice([2, 3])})
+            # else: drop the RecvStream unread (implicit stop)
+            if r.random() < 0.3:
+                ops.append({"op": "sleep", "us": r.choice([1000, 300000])})
+            if bidi:
+                w = r.random()
+                if w < 0.4:
+                    ops.append({"op": "write_all", "n": r.choice([1, 500])})
+                    ops.append({"op": "finish"})
+                elif w < 0.55:
+                    ops.append({"op": "reset", "code": 6})
+                # else: the drop finishes it
+        return ops
+
+    def side(root, peer_root):
+        for _ in range(r.choice([1, 1, 2])):
+            bidi = r.random() < 0.4
+            k = r.choice([2, 3, 4])
+            tasks.append({"ep": -1, "ops": opener(bidi, k), "with_ep": False})
+            root["ops"].append({"op": "spawn", "t": len(tasks) - 1})
+            tasks.append({"ep": -1, "ops": acceptor(bidi, k if r.random() < 0.85 else k - 1), "with_ep": False})
+            peer_root["ops"].append({"op": "spawn", "t": len(tasks) - 1})
+
+    srv, cli = tasks[0], tasks[1]
+    srv["ops"].append({"op": "accept_conn"})
+    cli["ops"].append({"op": "connect"})
+    side(cli, srv)
+    if r.random() < 0.4:
+        side(srv, cli)
+    srv["ops"] += root_tail(r, True) if r.random() < 0.5 else [{"op": "closed"}]
+    cli["ops"] += root_tail(r, False) if r.random() < 0.5 else [{"op": "closed"}]
+    return {"run": idx, "seed": r.getrandbits(48), "cfg": cfg, "tasks": tasks, "family": "limit_chain"}
+
+
+def gen_zero_rtt(r, idx, prefix=None):
+    """0-RTT: the client uses the connection before the handshake completes (Connecting::into_0rtt with a session
+    ticket) and blocks on early streams; when the server refuses early data every blocked operation must resolve."""
+    cfg = base_cfg(r, prefix)
+    cfg["ticket"] = True
+    cfg["early_accept"] = r.random() < 0.3
+    cfg["max_uni"] = r.choice([2, 4, 16])
+    cfg["max_bi"] = r.choice([2, 4])
+    tasks = [{"ep": 0, "root": True, "ops": []}, {"ep": 1, "root": True, "ops": []}]
+    srv, cli = tasks[0], tasks[1]
+    srv["ops"].append({"op": "accept_conn"})
+    if r.random() < 0.3:
+        cli["ops"].append({"op": "sleep", "us": r.choice([10, 5000])})
+    cli["ops"].append({"op": "connect", "zero_rtt": True})
+    for _ in range(r.choice([1, 2, 3, 4])):
+        bidi = r.random() < 0.6
+        ops = [{"op": "open_bi" if bidi else "open_uni"}]
+        n = r.choice([0, 1, 200, 200, 3000])
+        if n:
+            ops.append({"op": r.choice(["write", "write_all", "write_chunks"]), "n": n})
+        if r.random() < 0.4:
+            ops.append({"op": "finish"})
+        blk = r.random()
+        if bidi and blk < 0.5:
+            ops.append({"op": r.choice(["read", "read_chunk", "read_chunks", "read_to_end"]), "n": 1000})
+        elif blk < 0.75:
+            ops.append({"op": "stopped"})
+        else:
+            ops.append({"op": "write_all", "n": 70000})
+        if r.random() < 0.2:
+            ops[-1]["cancel"] = cancel_plan(r)
+            ops[-1]["retry"] = True
+        tasks.append({"ep": -1, "ops": ops, "with_ep": False})
+        cli["ops"].append({"op": "spawn", "t": len(tasks) - 1})
+        # the server's counterpart (only ever sees the stream when early data is accepted or never at all)
+        sops = [{"op": "accept_bi" if bidi else "accept_uni"},
+                {"op": "read_all", "kind": r.choice(["read", "read_chunk"]), "n": 1500, "max_rounds": 60}]
+        if bidi:
+            sops += [{"op": "write_all", "n": r.choice([1, 400])}, {"op": "finish"}]
+        tasks.append({"ep": -1, "ops": sops, "with_ep": False})
+        srv["ops"].append({"op": "spawn", "t": len(tasks) - 1})
+    cli["ops"] += r.choice([[{"op": "closed"}], [{"op": "sleep", "us": 3000000}, {"op": "close", "code": 1}], []])
+    srv["ops"] += r.choice([[{"op": "closed"}], [{"op": "sleep", "us": 5000000}, {"op": "close", "code": 2}]])
+    return {"run": idx, "seed": r.getrandbits(48), "cfg": cfg, "tasks": tasks, "family": "zero_rtt"}
+
+
 def gen_script(r, idx, prefix=None):
+    fam = r.random()
+    if fam < 0.06:
+        return gen_zero_rtt(r, idx, prefix)
+    if fam < 0.20:
+        return gen_limit_chain(r, idx, prefix)
+    return gen_general(r, idx, prefix)
+
+
+def gen_general(r, idx, prefix=None):
     cfg = {}
     lossy = r.random() < 0.25
     cfg["net"] = {
